@@ -181,6 +181,7 @@ class Step:
         self.post_store = o["post_stores"][k + 1]
         self.taps = [t for t in o["taps"] if t["step"] == k]
         self.probe_taps = {j: [t for t in o["taps"] if t["step"] == 1000 + 10 * k + j] for j in range(4)}
+        self.remote = (case.get("steps") or [{}] * (k + 1))[k].get("remote") if k < len(case.get("steps") or []) else None
 
     def concl(self, which):
         p = self.s.get(which)
@@ -288,6 +289,40 @@ def oracle_c11(step):
         extra = now - was - live
         if extra:
             out.append({"what": f"`{cmd}` recorded in imports.lock something neither served now nor already locked: {sorted(extra, key=str)[:2]}"})
+    # 5. the same against the remote state of the CASE (crates.io as generated), independently of what the
+    #    implementation computed while going online: a newly recorded `unpublished` entry is for a version crates.io
+    #    does not serve, audited as the nearest earlier (else next later) published version; a newly recorded
+    #    publisher entry is a version crates.io serves with that very publisher
+    reg = ((step.remote or {}).get("registry") or {}).get("packages")
+    if reg is not None and cls != "check-locked" and isinstance(step.pre, dict) and isinstance(step.post, dict):
+        def vkey(v):
+            return gen.VERSIONS.index(v) if v in gen.VERSIONS else None
+        pre_u = {(n, u.get("version"), u.get("audited_as")) for n, l in ((step.pre.get("imports") or {}).get("unpublished") or {}).items() for u in l}
+        for n, l in ((step.post.get("imports") or {}).get("unpublished") or {}).items():
+            served = [r["version"] for r in reg.get(n, [])]
+            for u in l:
+                key = (n, u.get("version"), u.get("audited_as"))
+                if key in pre_u:
+                    continue
+                if u.get("version") in served:
+                    out.append({"what": f"`{cmd}` recorded {n} {u.get('version')} as unpublished (audited as {u.get('audited_as')}) although crates.io serves that exact version"})
+                    continue
+                ks = [(vkey(x), x) for x in served if vkey(x) is not None]
+                me = vkey(u.get("version"))
+                if me is not None and ks and len(ks) == len(served):
+                    below = [x for x in ks if x[0] < me]
+                    want = max(below)[1] if below else min(x for x in ks if x[0] > me)[1]
+                    if u.get("audited_as") != want:
+                        out.append({"what": f"`{cmd}` recorded {n} {u.get('version')} as audited as {u.get('audited_as')}; the nearest earlier (else next later) published version is {want}"})
+        pre_p = {(n, p.get("version")) for n, l in ((step.pre.get("imports") or {}).get("publisher") or {}).items() for p in l}
+        for n, l in ((step.post.get("imports") or {}).get("publisher") or {}).items():
+            byv = {r["version"]: r for r in reg.get(n, [])}
+            for p_ in l:
+                if (n, p_.get("version")) in pre_p:
+                    continue
+                r = byv.get(p_.get("version"))
+                if r is None or r.get("by") != p_.get("user-id") or r.get("when") != p_.get("when"):
+                    out.append({"what": f"`{cmd}` recorded a publisher entry for {n} {p_.get('version')} that crates.io does not serve ({r})"})
     return out
 
 
@@ -320,7 +355,9 @@ def oracle_c13(step):
             f = None
             # the known finding: a second prune only DROPS entries the first one kept
             # (freshness promotion after the import); anything else is new
-            if cls == "prune" and rep.get("files") and only_removals(step.s["files"], rep["files"]):
+            # (the same pruning update, with the same mechanism, runs in regenerate imports / exemptions)
+            if cls in ("prune", "regenerate-imports", "regenerate-exemptions") and rep.get("files") and \
+                    only_removals(step.s["files"], rep["files"]):
                 f = "F-C13-prune"
             # the known finding for regenerate exemptions: the second run re-minimises the exemptions
             # the first run wrote (narrows / merges / drops / widens them); with other exemptions other
@@ -332,6 +369,11 @@ def oracle_c13(step):
                 if ex(step.s["files"]["config"]) != ex(rep["files"]["config"]):
                     f = "F-C13-regenerate"
             out.append({"what": f"re-running `{cmd}` with unchanged inputs changed store files {rep['same_bytes']}", "finding": f})
+    # a plain `cargo vet` right after a successful check / prune / regenerate imports finds nothing to write
+    if cls in ("check", "prune", "regenerate-imports"):
+        pc = step.s.get("post_check")
+        if pc and pc.get("outcome") == "ok" and pc.get("same_bytes") is not None and not all(pc["same_bytes"]):
+            out.append({"what": f"`cargo vet` right after a successful `{cmd}` (same remote state) rewrote store files {pc['same_bytes']}"})
     if cls == "check-locked" and step.pre is not None and step.post is not None:
         if jkey(step.pre) != jkey(step.post):
             out.append({"what": "`cargo vet --locked` changed the meaning of a store file"})
